@@ -227,10 +227,14 @@ func checkMain(args []string) int {
 				total--
 				break
 			}
-			if r.EntryEnv != nil {
+			renv := r.PostEnv
+			if renv == nil {
+				renv = r.EntryEnv
+			}
+			if renv != nil {
 				e, perr := ParseExpr(k.Region)
 				if perr == nil {
-					rt, eerr := r.EntryEnv.Bool(e)
+					rt, eerr := renv.Bool(e)
 					if eerr == nil {
 						o2 := *o
 						o2.Guard = and(o.Guard, not(rt))
